@@ -29,7 +29,13 @@ from guppylang_internals.tracing.unpacking import (
     update_packed_value,
 )
 from guppylang_internals.tracing.util import capture_guppy_errors, tracing_except_hook
-from guppylang_internals.tys.ty import FunctionType, InputFlags, type_to_row, unify
+from guppylang_internals.tys.ty import (
+    FunctionType,
+    InputFlags,
+    TupleType,
+    type_to_row,
+    unify,
+)
 
 if TYPE_CHECKING:
     import ast
@@ -88,8 +94,11 @@ def trace_function(
             )
 
         # Unpack regular returns
+        # Tuples are returned as a row of their elements (also tuples with a single
+        # element, whose row has the same length as the row of a non-tuple)
         out_tys = type_to_row(out_obj._ty)
-        if len(out_tys) > 1:
+        is_row = isinstance(out_obj._ty, TupleType) and not out_obj._ty.preserve
+        if is_row and len(out_tys) > 0:
             regular_returns: list[Wire] = list(
                 builder.add_op(ops.UnpackTuple(), out_obj._use_wire(None)).outputs()
             )
